@@ -1,9 +1,9 @@
 import MindsVerif.Lemmas.Literal
-import MindsVerif.Model.Render
+import MindsVerif.Model.LitRender
 /-! the encoder `Constant.get_string`, the SQLAlchemy literal renderer against the standard-SQL reader,
 integers -/
 namespace MindsVerif.Literal
-open MindsVerif.Py MindsVerif.Lex MindsVerif.Denote MindsVerif.Render
+open MindsVerif.Py MindsVerif.Lex MindsVerif.Denote MindsVerif.LitRender
 
 theorem enc_main : ∀ v : List Char, encOK v = true →
     replace ['\''] ['\\', '\''] v = srcBody '\'' (encItems v) ∧ WF '\'' true (encItems v) ∧
